@@ -2,15 +2,12 @@
 # usage: tools/seed_all.sh : re-apply every seeded change of /verif/seeded/*/ to /repo in turn, run the quick check of its property,
 # revert, and print CAUGHT/MISSED (updates meta.json verif_result).  /repo must be clean; nothing else may run ./check meanwhile.
 cd /verif
-if [ -n "$(git -C /repo status --short | grep -v '^??'
-# evidence and replays of the unchanged tree
-git -C /verif checkout replays/ 2>/dev/null
-tools/run_all.sh quick)" ]; then echo "/repo not clean"; exit 2; fi
+if [ -n "$(git -C /repo status --short | grep -v '^??')" ]; then echo "/repo not clean"; exit 2; fi
 for d in seeded/C*/; do
   name=$(basename $d); pid=${name%%-*}
   if ! git -C /repo apply --check /verif/$d/patch.diff 2>/dev/null; then echo "$name PATCH-DOES-NOT-APPLY (the code it changed was modified by a later fix)"; continue; fi
   SEED_NO_RESTORE=1 tools/seed_try.sh $pid /verif/$d $name 2>&1 | tail -1
-  git -C /repo checkout -- . 
+  git -C /repo checkout -- .
 done
 git -C /repo status --short | grep -v '^??'
 # evidence and replays of the unchanged tree
